@@ -792,7 +792,11 @@ class Generator(AbstractODSGenerator):
         return f'=HYPERLINK("#{self.get_in_out_sheet_name(transaction.asset)}.a{row}:z{row}"; "{value}")'
 
     def __get_hyperlinked_summary_value(self, asset: str, value: Any, year: int) -> Any:
-        row: int = self.__tax_sheet_year_2_row[_AssetAndYear(asset, year)]
+        row: Optional[int] = self.__tax_sheet_year_2_row.get(_AssetAndYear(asset, year))
+        if not row:
+            # This may occur if command line time filters are activated: the yearly summary covers the whole year of from_date,
+            # but the gain / loss detail table (the link target) only contains the rows inside the time window
+            return value
         if isinstance(value, (RP2Decimal, int, float)):
             return f'=HYPERLINK("#{self.get_tax_sheet_name(asset)}.a{row}:z{row}"; {value})'
         return f'=HYPERLINK("#{self.get_tax_sheet_name(asset)}.a{row}:z{row}"; "{value}")'
